@@ -24,13 +24,13 @@ class Sess:
     def __init__(self, kind, idx, r):
         self.kind, self.name = kind, '%s%d' % (kind[0] + kind[-1], idx)
         self.raw = r.chance(1, 3)
-        self.a = 0x0a000000 + r.below(2 ** 24); self.b = 0xc0a80000 + r.below(65536)
+        self.a = r.choice([0x0a000000 + r.below(2 ** 24), 0, 0xffffffff, 0xe0000001, r.below(2 ** 32)]); self.b = r.choice([0xc0a80000 + r.below(65536), 0, 0xffffffff, self.a, r.below(2 ** 32)])
         self.count = 0
         if kind == 'vxlan':
-            self.sp, self.dp, self.vni = r.below(65536), r.choice([4789, r.below(65536)]), r.choice([0, 1, 2 ** 24 - 1, r.below(2 ** 24)])
+            self.sp, self.dp, self.vni = r.choice([0, 65535, 4789, r.below(65536), r.below(65536)]), r.choice([4789, 0, 65535, 1, r.below(65536)]), r.choice([0, 1, 2 ** 24 - 1, r.below(2 ** 24)])     # zero and all-ones are ordinary values
             self.decl = 'let %s = vxlan::session(%s:%d, %s:%d, sessionid: %d%s);' % (self.name, ip(self.a), self.sp, ip(self.b), self.dp, self.vni, ', raw: true' if self.raw else '')
         elif kind == 'gre':
-            self.et = r.choice([0x6558, 0x0800, r.below(65536)])
+            self.et = r.choice([0x6558, 0x0800, 0, 0xffff, 0x88be, r.below(65536)])
             self.decl = 'let %s = gre::session(%s, %s, %d%s);' % (self.name, ip(self.a), ip(self.b), self.et, ', raw: true' if self.raw else '')
         else:
             self.decl = 'let %s = %s::session(%s, %s%s);' % (self.name, kind, ip(self.a), ip(self.b), ', raw: true' if self.raw else '')
